@@ -51,14 +51,14 @@ def detorderCase (id : String) (payload : List Sexp) : List String :=
     both id [("variants", toString (uniqSorted results).length)] [("variants", "1")] (if n ≤ 1 then "WF" else "F_structTwice")
   | .atom "pkgdir" :: rest =>
     -- `(detorder pkgdir (import p) (pkgctx (path dir) …) (cwdctx (path dir) …))`: which directory `getPkgDir` reads the struct from
+    -- since eb01b4a: the package's own context, whatever the working directory; every input is well-formed
     let p := Sexp.list (.atom "p" :: rest)
     let ctxOf (k : String) : ModCtx := ((p.field? k).map Sexp.args |>.getD []).filterMap (fun d => match d with
       | .list [.atom a, .atom b] => some (a, b)
       | _ => none)
     let imp := (atoms (p.field? "import")).headD ""
     let show_ (o : Option String) : String := o.getD "fail"
-    both id [("struct-from", show_ (getPkgDir (ctxOf "cwdctx") imp))] [("struct-from", show_ (pkgDirSpec (ctxOf "pkgctx") imp))]
-      (if F_pkgDirCwd (ctxOf "cwdctx") (ctxOf "pkgctx") imp then "F_pkgDirCwd" else "WF")
+    both id [("struct-from", show_ (getPkgDir (ctxOf "cwdctx") (ctxOf "pkgctx") imp))] [("struct-from", show_ (pkgDirSpec (ctxOf "pkgctx") imp))] "WF"
   | .atom "msg" :: rest =>
     let p := Sexp.list (.atom "p" :: rest)
     let _n := (atoms (p.field? "files")).length
